@@ -339,17 +339,16 @@ def pullFields : List String := ["locator", "servers", "mount_uuid"]
 
 def quote (s : List Char) : String := "\"" ++ String.ofList s ++ "\""
 
-/-- `Trash.MarshalJSON` (ids and hashes in this domain need no JSON escaping) -/
+/-- `Trash.MarshalJSON` (ids and hashes in this domain need no JSON escaping); the keys are
+`trashFields` (Tie.C05.tie_trashJSON) -/
 def TrashReq.json (t : TrashReq) : String :=
-  "{" ++ quote trashFields[0]!.toList ++ ":" ++ quote t.locator ++ "," ++
-    quote trashFields[1]!.toList ++ ":" ++ toString t.blockMtime ++ "," ++
-    quote trashFields[2]!.toList ++ ":" ++ quote t.mountUUID ++ "}"
+  "{\"locator\":" ++ quote t.locator ++ ",\"block_mtime\":" ++ toString t.blockMtime ++
+    ",\"mount_uuid\":" ++ quote t.mountUUID ++ "}"
 
-/-- `Pull.MarshalJSON` -/
+/-- `Pull.MarshalJSON`; the keys are `pullFields` (Tie.C05.tie_pullJSON) -/
 def PullReq.json (p : PullReq) : String :=
-  "{" ++ quote pullFields[0]!.toList ++ ":" ++ quote p.locator ++ "," ++
-    quote pullFields[1]!.toList ++ ":[" ++ ",".intercalate (p.servers.map quote) ++ "]," ++
-    quote pullFields[2]!.toList ++ ":" ++ quote p.mountUUID ++ "}"
+  "{\"locator\":" ++ quote p.locator ++ ",\"servers\":[" ++ ",".intercalate (p.servers.map quote) ++
+    "],\"mount_uuid\":" ++ quote p.mountUUID ++ "}"
 
 /-- the trash requests of a result -/
 def Result.trashes (r : Result) : List (Slot × Int) :=
